@@ -42,7 +42,7 @@ func c13Specs(tier string, seed int) []c13Spec {
 	for v := 0; v < 12; v++ {
 		out = append(out, c13Spec{Kind: "endit", Var: v})
 	}
-	for v := 0; v < 16; v++ { // 8..11: with the monthly precipitation correction switched on; 12..15: no radiation column, four missing-value codes
+	for v := 0; v < 18; v++ { // 8..11: with the monthly precipitation correction switched on; 12..15: no radiation column, four missing-value codes; 16..17: CO2 rising from year to year
 		out = append(out, c13Spec{Kind: "weather", Var: v})
 	}
 	for v := 0; v < 6; v++ {
@@ -53,7 +53,7 @@ func c13Specs(tier string, seed int) []c13Spec {
 	for _, k := range []struct {
 		kind string
 		n    int
-	}{{"soil", len(c13Soils())}, {"rotation", 8}, {"endit", 12}, {"weather", 16}, {"dates", 6}} {
+	}{{"soil", len(c13Soils())}, {"rotation", 8}, {"endit", 12}, {"weather", 18}, {"dates", 6}} {
 		for v := 0; v < k.n; v++ {
 			if tier == "thorough" || v%3 == 0 {
 				out = append(out, c13Spec{Kind: k.kind, Var: v, Hist: 1})
@@ -330,7 +330,7 @@ func c13Run(raw json.RawMessage, c *mc.Ctx) {
 		os.Remove(filepath.Join(root, "project", p.ID, "endit_"+p.ID+".txt"))
 		run("csv", p)
 	case "weather":
-		et := []int{3, 2, 4, 1, 3, 2, 3, 4, 3, 2, 3, 4, 3, 2, 4, 3}[sp.Var]
+		et := []int{3, 2, 4, 1, 3, 2, 3, 4, 3, 2, 3, 4, 3, 2, 4, 3, 3, 2}[sp.Var]
 		b := e1Base{Soil: "loam12", GW: 99, InitW: 0.7, InitN: 30, ET: et, Start: []string{"2001-08-15", "2003-12-30", "2000-01-01", "1999-03-01"}[sp.Var%4]}
 		p := e1Project(b, 500)
 		st := proj.D(b.Start)
@@ -345,7 +345,7 @@ func c13Run(raw json.RawMessage, c *mc.Ctx) {
 		if sp.Var >= 4 {
 			p.SunColumn = true
 		}
-		if sp.Var >= 12 {
+		if sp.Var >= 12 && sp.Var < 16 {
 			// no global radiation in the input (derived from the sunshine hours), with the default and with other missing-value codes
 			p.NoRadColumn = true
 			p.Config["WeatherNoneValue"] = []string{"-99.9", "999.9", "-999", "-1"}[sp.Var-12]
@@ -363,7 +363,19 @@ func c13Run(raw json.RawMessage, c *mc.Ctx) {
 				p.Weather[i].Precip = float64(1 + i%4)
 			}
 		}
-		for _, layout := range []int{0, 1, 2} {
+		layouts := []int{0, 1, 2}
+		if sp.Var >= 16 {
+			// a CO2 concentration that rises from year to year: header slot of the year files, CO2 column of the day-of-year layout
+			// (the multi-year CSV layout cannot carry it)
+			layouts = []int{1, 2}
+			p.Heights = &[3]float64{50, 2, 0} // (the configuration's altitude and the default wind height: what the day-of-year layout runs with)
+			p.CO2ByYear = map[int]float64{}
+			for y := st.Year(); y <= st.Year()+3; y++ {
+				p.CO2ByYear[y] = float64(380 + 45*(y-st.Year()))
+			}
+			p.Config["CO2method"] = []string{"1", "3"}[sp.Var-16]
+		}
+		for _, layout := range layouts {
 			p.Layout = layout
 			delete(p.Config, "WeatherFile")
 			delete(p.Config, "WeatherFileFormat")
